@@ -857,9 +857,13 @@ func (a *analyzer) selectStmt(s *selectStmt, parent *scope, keepUnknown bool) (*
 	if s.hasAgg && s.hasSRF {
 		return nil, unsupported("aggregates together with set-returning functions")
 	}
+	s.lookup = nil
 	if s.where != nil {
 		if err := a.boolOperand(s.where, sc, "WHERE"); err != nil {
 			return nil, err
+		}
+		if len(s.from) > 0 {
+			s.lookup = findLookup(s.from[0].rel, s.where)
 		}
 	}
 	if (s.hasAgg || s.hasSRF) && (len(s.orderBy) > 0 || s.distinctOn != nil || s.distinct) {
@@ -1162,10 +1166,12 @@ func (a *analyzer) updateStmt(s *updateStmt, parent *scope) ([]colInfo, error) {
 		}
 	}
 	s.width = sc.width
+	s.lookup = nil
 	if s.where != nil {
 		if err := a.boolOperand(s.where, sc, "WHERE"); err != nil {
 			return nil, err
 		}
+		s.lookup = findLookup(sc.rels[0], s.where)
 	}
 	if s.retCols, s.retExpr, err = a.returning(s.returning, sc); err != nil {
 		return nil, err
@@ -1189,10 +1195,12 @@ func (a *analyzer) deleteStmt(s *deleteStmt, parent *scope) ([]colInfo, error) {
 	if err := sc.addRel(tableRel(t, s.alias)); err != nil {
 		return nil, err
 	}
+	s.lookup = nil
 	if s.where != nil {
 		if err := a.boolOperand(s.where, sc, "WHERE"); err != nil {
 			return nil, err
 		}
+		s.lookup = findLookup(sc.rels[0], s.where)
 	}
 	s.retCols, s.retExpr, err = a.returning(s.returning, sc)
 	return s.retCols, err
@@ -1270,3 +1278,73 @@ func prepareStmt(cat *catalog, tx *txn, st stmt, paramOIDs []uint32) (*prepared,
 }
 
 func maxParam(st stmt) int { return 0 }
+
+// rowIndependent reports whether e can be evaluated without the current row
+// of its own query level (it may reference parameters and outer levels).
+func rowIndependent(e expr) bool {
+	switch n := e.(type) {
+	case *eLit, *eParam:
+		return true
+	case *eCol:
+		return n.depth > 0
+	case *eCast:
+		return rowIndependent(n.x)
+	case *eUnary:
+		return n.op == "-" && rowIndependent(n.x)
+	case *eBin:
+		switch n.op {
+		case "+", "-", "*":
+			return rowIndependent(n.l) && rowIndependent(n.r)
+		}
+	}
+	return false
+}
+
+// findLookup looks for "col = <row-independent expr>" conjuncts in where that
+// cover a unique constraint of the table bound to rel.
+func findLookup(rel *relInfo, where expr) *keyLookup {
+	if rel == nil || rel.tbl == nil || where == nil {
+		return nil
+	}
+	pinned := map[int]expr{}
+	var walk func(e expr)
+	walk = func(e expr) {
+		b, ok := e.(*eBin)
+		if !ok {
+			return
+		}
+		if b.op == "and" {
+			walk(b.l)
+			walk(b.r)
+			return
+		}
+		if b.op != "=" {
+			return
+		}
+		for _, pair := range [][2]expr{{b.l, b.r}, {b.r, b.l}} {
+			c, ok := pair[0].(*eCol)
+			if !ok || c.depth != 0 || c.idx < rel.offset || c.idx >= rel.offset+len(rel.cols) || !rowIndependent(pair[1]) {
+				continue
+			}
+			if _, dup := pinned[c.idx-rel.offset]; !dup {
+				pinned[c.idx-rel.offset] = pair[1]
+			}
+		}
+	}
+	walk(where)
+	if len(pinned) == 0 {
+		return nil
+	}
+	for _, u := range rel.tbl.uniques {
+		l := &keyLookup{u: u}
+		for _, c := range u.cols {
+			if e, ok := pinned[c]; ok {
+				l.keys = append(l.keys, e)
+			}
+		}
+		if len(l.keys) == len(u.cols) {
+			return l
+		}
+	}
+	return nil
+}
